@@ -35,4 +35,21 @@ CHECKS = {
         quick=dict(stages=[st(6000, timeout=600)]),
         thorough=dict(stages=[st(60000, shards=16, timeout=2400)]),
     ),
+    "C03": dict(
+        pkg="c03", level="exploration",
+        rule="(a) every generated C01 history / C02 view-operation case executed in lock-step on a Go-backed and a C-backed root (C memory = anonymous mapping outside the Go heap with canaries, in 2/3 of the cases flush against a PROT_NONE page at its end or start): all observations (element reads, Unroll, Shape, Contiguous, errors, whole storage after each step) must be identical and no byte outside the buffer may change. "
+             "Non-trivial = as C01/C02 (write through a depth>=2 stepped view, non-contiguous bulk target, non-contiguous/stepped/reshaped view, mixed contiguity); distinct = distinct case",
+        assumptions=["C int/uint are 32-bit, Go's 64-bit: values are generated in the common range"],
+        quick=dict(stages=[st(3000, timeout=600)]),
+        thorough=dict(stages=[st(25000, shards=16, timeout=2400)]),
+    ),
+    "C04": dict(
+        pkg="c04", level="exploration",
+        rule="rapid-generated (model from the whole catalogue, N=1..8 cells, P parameter sets and B input blocks each in {N, 1, divisor of N, coprime with N, N-1}, T=1..40, per-cell table lengths, states from the model's own initialisation / a previous run, outputs exact-size or with extra cells/timesteps, state rows with extra columns, Go- or C-backed arrays); "
+             "oracle: every cell run alone on a fresh model object (parameter column i mod P, input block i mod B, its own state row): outputs and final states bit-identical, inputs/parameters bit-unchanged, sentinel outside the run region intact; InitialiseStates(N) row i = the cell initialised alone. "
+             "Non-trivial = N>=2 and (P<N or B<N or table lengths differ between cells); distinct = (model,N,P,B,T,layout,parameters)",
+        assumptions=["kernels are exercised inside their documented/physical parameter domain (simref.DrawCell); outside it some kernels panic in the cell goroutine"],
+        quick=dict(stages=[st(2500, timeout=900)]),
+        thorough=dict(stages=[st(12000, shards=16, timeout=3000)]),
+    ),
 }
